@@ -42,6 +42,7 @@ def node_st(n):
             lambda t: {"k": "redir", "to": t[0], "status": t[1], "port": t[2]}),
         st.sampled_from([{"k": "drop", "how": "close"}, {"k": "drop", "how": "reset"}, {"k": "drop", "how": "stall"}]),
         st.sampled_from(ODD).map(lambda m: {"k": "odd", "meta": m, "status": 30}),
+        st.sampled_from([30, 31]).map(lambda s_: {"k": "slash", "status": s_}),   # "/dir" -> "/dir/" -> "/dir//" ... for ever
     )
 
 
@@ -52,19 +53,24 @@ def case_st(draw):
             "maxr": draw(st.integers(0, 6)), "follow": draw(st.integers(0, 4)) > 0,
             "badhost": draw(st.sampled_from([None, None, "a", "b", "c"])),
             "bad_after": draw(st.sampled_from([0, 0, 1, 2])),  # the bad host presents its pinned certificate on the first k connections
-            "identity": draw(st.sampled_from([None, None, "ec-b", "rsa-a"]))}  # the client is configured with a client certificate
+            "identity": draw(st.sampled_from([None, None, "ec-b", "rsa-a"])),
+            "dbfault": draw(st.sampled_from([None, None, None, 1, 2, 3, 4, 5]))}  # trust-store failure at the n-th statement of the fetch  # the client is configured with a client certificate
 
 
 def enum_small(tier):
     N = 2 if tier == "quick" else 3
     for n in range(1, N + 1):
-        kinds = [{"k": "final"}] + [{"k": "redir", "to": j, "status": 30 if j else 37, "port": False} for j in range(n)] + \
+        kinds = [{"k": "final"}, {"k": "slash", "status": 30}] + [{"k": "redir", "to": j, "status": 30 if j else 37, "port": False} for j in range(n)] + \
                 [{"k": "odd", "meta": m, "status": 30} for m in ("http://a/x", "/relative", "")] + [{"k": "drop", "how": "close"}]
         for nodes in itertools.product(kinds, repeat=n):
             for maxr in range(0, 4):
                 for follow in (True, False):
                     for bad, after in ((None, 0), ("b", 0), ("a", 1)):
                         yield {"nodes": list(nodes), "start": 0, "maxr": maxr, "follow": follow, "badhost": bad, "bad_after": after}
+                        if bad == "b" and follow and maxr == 3:
+                            for nf in (1, 2, 3):
+                                yield {"nodes": list(nodes), "start": 0, "maxr": maxr, "follow": follow, "badhost": bad, "bad_after": after,
+                                       "dbfault": nf}
                         if bad == "b" and follow:
                             yield {"nodes": list(nodes), "start": 0, "maxr": maxr, "follow": follow, "badhost": bad, "bad_after": after,
                                    "identity": "ec-b"}
@@ -101,6 +107,9 @@ def walk(case):
             return ("error", "peer-dropped", path)
         if nd["k"] == "odd":
             return ("odd", cur, path)
+        if nd["k"] == "slash":
+            # every hop is a new URL on the same host: followed until the budget is used up, then reported
+            return ("error", "limit", path + [cur] * (maxr - followed))
         if followed >= maxr:
             return ("error", "limit", path)
         if nd["to"] in visited:
@@ -129,10 +138,12 @@ def run_case(case: dict):
             def respond(req, h=h):
                 line = req.split(b"\r\n", 1)[0].decode("utf-8", "replace")
                 try:
-                    i = int(line.rsplit("/n", 1)[1])
+                    i = int(line.rsplit("/n", 1)[1].rstrip("/"))
                     nd = nodes[i]
                 except Exception:
                     return b"51 no such node\r\n"
+                if nd["k"] == "slash":
+                    return f"{nd['status']} {line}/\r\n".encode()
                 if nd["k"] == "final":
                     return f"20 text/gemini\r\nBODY-n{i}".encode()
                 if nd["k"] == "drop":
@@ -154,6 +165,11 @@ def run_case(case: dict):
             ic = certs.get(case["identity"])
             ident = {"client_cert": Path(ic.cert_path), "client_key": Path(ic.key_path)}
         client = GeminiClient(timeout=10, max_redirects=case["maxr"], tofu_db_path=dbpath, **ident)
+        from props import c12
+
+        c12._patch()
+        if case.get("dbfault"):
+            c12._State.n, c12._State.kind, c12._State.count, c12._State.active = case["dbfault"], "error", 0, True
         try:
             r = await client.get(url_of(case["start"]), follow_redirects=case["follow"])
             res = ("resp", r.status, r.meta, r.body)
@@ -163,6 +179,8 @@ def run_case(case: dict):
             res = ("valueerror", str(e)[:60])
         except Exception as e:
             res = ("exc", type(e).__name__, str(e)[:60])
+        finally:
+            c12._State.active = False
         lines = []
         for h in HOSTS:
             for c in peers[h].conns:
@@ -194,17 +212,20 @@ def run_case(case: dict):
         if len(conns) != 1:
             return viol("follow-off-made-several-connections", f"{conns}", **info)
         if bad == start_host and not case.get("bad_after"):
-            if res[0] != "changed":
+            if res[0] != "changed" and not (case.get("dbfault") and res[0] != "resp"):
                 return viol("pin-not-verified", f"{res}", **info)
             return ok(**info)
         nd = case["nodes"][case["start"]]
         exp = {"final": ("resp", 20, "text/gemini", f"BODY-n{case['start']}"),
                "redir": ("resp", nd.get("status"), url_of(nd.get("to", 0), nd.get("port", False)), None),
-               "odd": ("resp", nd.get("status"), nd.get("meta"), None), "drop": None}[nd["k"]]
+               "odd": ("resp", nd.get("status"), nd.get("meta"), None), "drop": None,
+               "slash": ("resp", nd.get("status"), url_of(case["start"]) + "/", None)}[nd["k"]]
         if exp is None:
             if res[0] == "resp":
                 return viol("response-from-dropped-connection", f"{res}", **info)
             return ok(**info)
+        if case.get("dbfault") and res[0] != "resp":
+            return ok(store_fault=True, **info)
         if res != exp:
             return viol("follow-off-response-altered", f"expected {exp}, got {res}", **info)
         return ok(**info)
@@ -217,11 +238,22 @@ def run_case(case: dict):
     visits = [k for k, h in enumerate(hosts_on_path) if h == bad]
     if bad is not None and len(visits) > case.get("bad_after", 0):
         i = visits[case.get("bad_after", 0)]
+        if case.get("dbfault"):
+            # the trust store failed somewhere during this fetch: any error is fine, but the hop that presents a changed
+            # certificate must still not be treated as verified
+            if res[0] == "resp" and len(conns) > i:
+                return viol("pin-not-verified-on-hop", f"hop {i} ({bad}) presents a changed certificate and the trust store failed at statement "
+                            f"{case['dbfault']}; result {res}", **info)
+            if len(conns) > i + 1:
+                return viol("hop-contacted-after-failure", f"{conns}", **info)
+            return ok(**info)
         if res[0] != "changed" or res[1] != bad:
             return viol("pin-not-verified-on-hop", f"hop {i} ({bad}) presents a changed certificate; result {res}", **info)
         if len(conns) > i + 1:
             return viol("hop-contacted-after-failure", f"{conns}", **info)
         return ok(**info)
+    if case.get("dbfault") and res[0] != "resp":
+        return ok(store_fault=True, **info)  # the fetch failed on the trust-store error
     if ref[0] == "final":
         exp = ("resp", 20, "text/gemini", f"BODY-n{ref[1]}")
         if res != exp:
